@@ -1,5 +1,6 @@
 import MinaModel.Animator
 import MinaModel.Spec.Timing
+import MinaModel.Spec.CssValue
 import Std.Data.HashMap
 /-!
 # Line-protocol driver: the model at `Float32`
@@ -19,6 +20,7 @@ inductive Obj where
   | tl (sh : Shape) (t : Timeline F)
   | mg (sh : Shape) (m : Merged F)
   | an (sh : Shape) (a : Animator F)
+  | qt (sh : Shape) (cfg : Config Rat) (tsF : TimeScale F) (starts : Option (List (Val Rat)))   -- exact configuration, for the spec oracle
 
 structure Session where
   shapes : List Shape := []
@@ -110,6 +112,21 @@ def parseConfig (sh : Shape) (w : Array String) (p : Nat) : Config F × Nat := I
     q := r
   return ({ easing := e0, delay := delay, duration := dur, keyframes := kfs, repeat_ := rep, reverse := rev }, q)
 
+def toQ : Val F → Val Rat
+  | .num x => .num (Spec.ratOfF32 x)
+  | .int k n => .int k n
+
+def cfgToQ (c : Config F) : Config Rat :=
+  { easing := c.easing, delay := Spec.ratOfF32 c.delay, duration := Spec.ratOfF32 c.duration,
+    keyframes := c.keyframes.map fun k => ⟨Spec.ratOfF32 k.time, k.easing, k.vals.map (·.map toQ)⟩,
+    repeat_ := c.repeat_, reverse := c.reverse }
+
+def showQ : Option (Except Panic (Val Rat)) → String
+  | none => "-"
+  | some (.error p) => "panic:" ++ p.tag
+  | some (.ok (.num q)) => bits (Spec.f32OfRat q)
+  | some (.ok (.int _ n)) => toString n
+
 def tsOf (w : Array String) (p : Nat) : TimeScale F :=
   ⟨fb w[p+1]!, fb w[p]!, parseRepeat w[p+2]!, w[p+3]! == "1"⟩
 
@@ -117,6 +134,7 @@ def asMerged : Obj → Option (Shape × Merged F)
   | .tl sh t => some (sh, ⟨[t]⟩)
   | .mg sh m => some (sh, m)
   | .an _ _ => none
+  | .qt _ _ _ _ => none
 
 def runLine (st : Session) (line : String) : Session × String := Id.run do
   let w := (line.splitOn " ").filter (· ≠ "") |>.toArray
@@ -195,6 +213,35 @@ def runLine (st : Session) (line : String) : Session × String := Id.run do
       let (cfg, _) := parseConfig sh w 3
       let t := Timeline.build sh.animFields cfg
       return ({ st with slots := st.slots.insert slot (.tl sh t) }, "ok")
+  | "qtl" =>
+    match st.shapes.find? (·.name == w[2]!) with
+    | none => return (st, "bad-shape")
+    | some sh =>
+      let (cfg, _) := parseConfig sh w 3
+      return ({ st with slots := st.slots.insert w[1]!.toNat! (.qt sh (cfgToQ cfg) ⟨cfg.delay, cfg.duration, cfg.repeat_, cfg.reverse⟩ none) }, "ok")
+  | "qstart" =>
+    match st.slots.get? w[1]!.toNat! with
+    | some (.qt sh cfg tsF _) =>
+      let vs := (sh.parseVals (w.toList.drop 2)).map toQ
+      return ({ st with slots := st.slots.insert w[1]!.toNat! (.qt sh cfg tsF (some vs)) }, "ok")
+    | _ => return (st, "bad-slot")
+  | "qupd" =>
+    match st.slots.get? w[1]!.toNat! with
+    | some (.qt sh cfg tsF starts) =>
+      let fieldsQ : List (AnimField Rat) := sh.animFields.map fun f => ⟨f.idx, toQ f.dflt⟩
+      -- the position is the time scale's (binary32, C03); C01 is about the value *at that position*
+      let (sF, ovr) : F × Bool := match tsF.position (fb w[2]!) with
+        | .active t rep rev => (t, !rep && !rev)
+        | .notStarted => (lit 0, true)
+        | .ended t => (t, false)
+      let vals := Spec.timelineValuesAt fieldsQ cfg starts (Spec.ratOfF32 sF) ovr
+      let nf := sh.fields.length
+      let outs := (List.range nf).map fun i =>
+        match vals.find? (·.1 == i) with
+        | some (_, v) => showQ v
+        | none => "-"
+      return (st, " ".intercalate outs)
+    | _ => return (st, "bad-slot")
   | "meta" =>
     match st.slots.get? w[1]!.toNat! with
     | some (.tl _ t) =>
